@@ -54,6 +54,11 @@ CHECKS = {
    text="projector.project/_filter_fields and the eject converters (_ast_to_dict, _convert_block, _convert_value, _ast_to_markdown, _block_to_markdown) run on a skeleton with a top-level assignment, nested blocks, a section marker, list / inline-map / literal-zone / holographic / null values and META, whose six key sites are chosen by the solver from one key of each keep-set and a neutral key (all 3^6 combinations) for each of the five mode strings. On every path: projected leaves are a subset of the source's (path, value) leaves, canonical/authoring keep all of them with lossy=false, anything omitted implies lossy=true, the keep-sets keep exactly the subtrees of their keys, and the dict (JSON/YAML) and Markdown views hold the same leaves as the filtered AST.",
    note="Pool-indexed (finite, stated) rather than fully symbolic keys because the filter hashes keys; JSON/YAML text dumping and the OCTAVE text of the projection (emit, C01/C02) are not re-read; CLI `octave eject` has its own older converter twins (not claimed); duplicate sibling keys: listed finding.",
    ref="DESIGN.md §4 C14"),
+ "C18": dict(
+   technique="CrossHair symbolic execution of the real change-application code and emitter (Absent sites, frame condition by object identity and by emitted lines)",
+   text="WriteTool._apply_changes/_apply_mutations/_is_delete_sentinel/_normalize_value_for_ast run under CrossHair on a document with top-level keys, a block and a section that reuse the same key names and META, with a request of one or two entries whose key is chosen by the solver from existing keys, a fresh key, META.X and META and whose operation ranges over DELETE, null, symbolic string (<= 2 chars), any int, list, dict, empty string and empty list: unnamed nodes are the same objects with the same value objects in the same order, nested same-named keys are untouched, DELETE removes exactly that key, null stays None and is distinct from \"\" and [], META requests merge. The emitted canonical lines of everything not named are compared before/after for every key x operation; Absent (with null as control) is placed at nine sites of a constructed AST and must never be emitted; the CLI --changes callback must hand the writer the same text as the tool.",
+   note="Read-back of null / empty string / empty list as distinct values is C04/C01; request keys come from a finite pool because dict keys realise; sequences of requests follow from the one-step frame condition (no hidden state).",
+   ref="DESIGN.md §4 C18"),
 }
 NOT_APPLICABLE = {
  "C06": "quantifies over interpreter configurations (PYTHONHASHSEED, locale, cwd, process boundaries, task interleavings); symbolic execution runs inside one configuration and cannot make these symbolic (DESIGN.md §4 C06)",
